@@ -359,6 +359,22 @@ func (b *builder) step(allowPath bool) {
 			b.emit(pdfmodel.Op{Name: "\"", Args: []float64{genDec(t, "aw", 0, 5, 1), genDec(t, "ac", 0, 3, 1)}, Text: b.text()})
 		case 17, 18:
 			b.textState()
+		case 20:
+			switch rapid.IntRange(0, 5).Draw(t, "oddNesting") {
+			case 0:
+				// BT without a preceding ET: the text object starts over
+				b.emit(pdfmodel.Op{Name: "BT"})
+				b.labels["nested-BT"] = true
+			case 1:
+				// q inside the text object, its Q after ET
+				if b.m.Depth() < 8 {
+					b.emit(pdfmodel.Op{Name: "q"})
+					b.emit(pdfmodel.Op{Name: "ET"})
+					b.labels["q-in-text-Q-outside"] = true
+				}
+			default:
+				b.emit(pdfmodel.Op{Name: "ET"})
+			}
 		case 19:
 			// q cm ... Q inside the text object (not in Figure 9, but common): the state is restored, and the next
 			// text is positioned through the text line matrix, which no consumer changes at Q
